@@ -219,6 +219,7 @@ class Executor(object):
         self.used_callee_clauses = set()
         self.inlined = set()
         self.used_lemmas = set()
+        self.assumed_clauses = set()
         self.canaries = []
 
     # -- source location ----------------------------------------------------------------------
@@ -573,6 +574,9 @@ class Executor(object):
         # in postconditions a parameter name denotes its value at entry (parameters are mutable locals)
         scope = self.spec_scope(st, dict(pre.env, result=value))
         for cname, (expr, props) in beh.ensures.items():
+            if cname.startswith("assumed_"):
+                self.assumed_clauses.add("%s.%s: %s" % (contract.qualname, cname, expr))
+                continue            # a stated assumption about the function (not provable from its body), used by callers
             z, facts = self.spec_bool(st, pre, expr, scope)
             self.oblige(st, "post:%s@%s" % (cname, lab), z, props=props, kind="post", extra_hyps=facts)
         for loc, expr in beh.sets.items():
@@ -1257,10 +1261,12 @@ class Executor(object):
         self.loop_ghost_havoc(h, lc, k)
         self.assume_invariants(h, lc)
         # exit
+        described = bool(lc.get("body_events"))
+
         def summary(s):
             return ("Loop", k, {g: s.ghost.get(g) for g in lc.get("ghost", {})})
         ex = h.fork().assume(rest.z == VL.nil).label("L%d:exit" % self.rel_line(node))
-        ex.trace = outer_trace + [summary(ex)]
+        ex.trace = outer_trace + ([summary(ex)] if described else [])
         self.use_hints(ex, lc.get("exit_hints", []))
         for r in self.exec_block(self.rejoin(st, ex), orelse):
             yield r
@@ -1269,11 +1275,15 @@ class Executor(object):
         it.ghost[restname] = SVL(VL.tl(rest.z))
         for st1, o in self.assign(it, target, SVal(VL.hd(rest.z))):
             if o is not None:
-                st1.trace = outer_trace + [summary(st1)] + st1.trace
+                st1.trace = outer_trace + ([summary(st1)] if described else []) + st1.trace
                 yield self.rejoin(st, st1), o
                 continue
             for st2, out in self.exec_block(st1, body):
                 if out is None or isinstance(out, Cont):
+                    if not described:
+                        self.oblige(st2, "inv-no-events@loop%d[%s]" % (k, self.path_label(st2)), z3.BoolVal(len(st2.trace) == 0),
+                                    props=lc.get("props", self.all_props(self.cur[1])), kind="inv",
+                                    note="a loop whose contract does not describe the ghost events of an iteration must not have any")
                     for i, be in enumerate(lc.get("body_events", [])):
                         z, facts = self.spec_bool(st2, self.pre_state, be, self.spec_scope(st2))
                         self.oblige(st2, "inv-body-events:%d@loop%d[%s]" % (i, k, self.path_label(st2)), z,
@@ -1282,10 +1292,10 @@ class Executor(object):
                     self.loop_ghost_step(st2, lc)
                     self.check_invariants(st2, lc, k, "keep")
                 elif isinstance(out, Brk):
-                    st2.trace = outer_trace + [summary(st2)] + st2.trace
+                    st2.trace = outer_trace + ([summary(st2)] if described else []) + st2.trace
                     yield self.rejoin(st, st2), None
                 else:
-                    st2.trace = outer_trace + [summary(st2)] + st2.trace
+                    st2.trace = outer_trace + ([summary(st2)] if described else []) + st2.trace
                     yield self.rejoin(st, st2), out
 
     def for_range(self, st, node, rng, target, body, orelse, k, lc):
@@ -1490,7 +1500,11 @@ class Executor(object):
                 if isinstance(rv, Raised):
                     yield st1, rv
                     continue
-                if isinstance(op, (ast.In, ast.NotIn)) and isinstance(rv, Obj):
+                import sys as _sys
+                if isinstance(op, (ast.In, ast.NotIn)) and rv is _sys.modules and is_sym(lv):
+                    v = self.lib.contains_sysmodules(self, st1, lv)
+                    outs = [(st1, self.negate(v) if isinstance(op, ast.NotIn) else v)]
+                elif isinstance(op, (ast.In, ast.NotIn)) and isinstance(rv, Obj):
                     outs = self.lib.contains_obj(self, st1, rv, lv, e)
                     if isinstance(op, ast.NotIn):
                         outs = [(s, v if isinstance(v, Raised) else self.negate(v)) for s, v in outs]
@@ -1962,8 +1976,12 @@ class Executor(object):
         for g, sort in beh.ghost.items():
             gx = hint.get("ghost", {}).get(g)
             if gx is None:
-                raise CheckerError("%s: call %s needs ghost argument %s (behaviour %s)" % (
-                    self.cur[0].target, key, g, bname))
+                if beh.requires and any(re.search(r"\b%s\b" % re.escape(g), r) for r in beh.requires):
+                    raise CheckerError("%s: call %s needs ghost argument %s (behaviour %s)" % (
+                        self.cur[0].target, key, g, bname))
+                # a universally quantified ghost the caller does not care about: any value is a valid instance
+                env[g] = self.fresh_of(sort, "%s.ghost.%s@L%d" % (name, g, ln))
+                continue
             gv, facts = self.spec_value(st, self.pre_state, gx, caller_scope)
             st.pc.extend(facts)
             env[g] = self.coerce(st, gv, sort, "%s.ghost.%s" % (name, g), node)
